@@ -492,6 +492,10 @@ func fixedWorkloadTexts() []string {
 		// redundant, directly nested parentheses (an evaluator or analysis that "looks through" them must not do so by rewriting the tree)
 		"((i + f64)) * ((i64)) + (((s))) + ((( (dec) )))",
 		"[((m)).a, ((st.Name)), (( ((i)) > 1 ? ((s)) : ((n)) ))]",
+		// runners without a data map: `this`, then locals of their own (what one such runner binds, another never sees)
+		"typeof this, $wa = 1, $wb ?? 'none'",
+		"typeof this, $wb = 2, $wa ?? 'none'",
+		"[this.zz, $wc = (($wc ?? 0) + 1), typeof this]",
 		// a host function that evaluates another formula (on a runner of its own) while the outer evaluation waits for it
 		"[nested(saltn), nested(saltn % 7) + 1, salt]",
 		// a host function that asks for "its" runner (RunnerFromCtx): the one its caller put into the context, or none
